@@ -665,7 +665,7 @@ static int ec_quit(char *loc, char *cmd, char *arg, char *txt)
 static int ec_insert(char *loc, char *cmd, char *arg, char *txt)
 {
 	int beg, end;
-	int n;
+	int n, i, d;
 	if (ex_region(loc, &beg, &end) && (beg != 0 || end != 0))
 		return 1;
 	if (cmd[0] == 'a')
@@ -675,6 +675,10 @@ static int ec_insert(char *loc, char *cmd, char *arg, char *txt)
 		end = beg;
 	n = lbuf_len(xb);
 	lbuf_edit(xb, txt, beg, end);
+	/* the text typed for c is new: globals do not visit it */
+	for (i = beg; xgdep && i < end + lbuf_len(xb) - n; i++)
+		for (d = 1; d <= xgdep; d++)
+			lbuf_globget(xb, i, d);
 	xrow = MAX(0, MIN(lbuf_len(xb) - 1, end + lbuf_len(xb) - n - 1));
 	return 0;
 }
